@@ -759,7 +759,7 @@ pub fn committed_count_from_len(len: usize) -> Option<usize> {
 }
 
 /// Domain generators of the blind interface: H_1..H_L, Q2, J_1..J_M.
-fn blind_all_generators(s: Suite, L: usize, M: usize) -> Vec<G1Projective> {
+pub fn blind_all_generators(s: Suite, L: usize, M: usize) -> Vec<G1Projective> {
     let mut g = create_generators(s, L + 1, &s.api_id_blind());
     g.extend(blind_generators(s, M + 1));
     g
